@@ -303,8 +303,8 @@ class Check(BaseCheck):
         specs = [{'campaign': 'sentinels'}]
         if tier == 'quick':
             for i in range(16):
-                specs.append({'campaign': 'trees', 'n': 2500, 'seed': seed, 'i': i, 'maxdepth': 6})
-            specs.append({'campaign': 'literals', 'n': 2000, 'seed': seed, 'i': 0})
+                specs.append({'campaign': 'trees', 'n': 9000, 'seed': seed, 'i': i, 'maxdepth': 6 if i % 4 else 9})
+            specs.append({'campaign': 'literals', 'n': 8000, 'seed': seed, 'i': 0})
         else:
             for i in range(32):
                 specs.append({'campaign': 'trees', 'n': 30000, 'seed': seed, 'i': i, 'maxdepth': 12 if i % 2 else 6})
